@@ -45,6 +45,14 @@ def configs(tier):
              dict(n=3, ps=1, k=1, script=['stop'], at=1),
              dict(n=3, ps=1, k=1, script=['shutdown'], at=1)):
     rpc.append((pf, dict(mode='delay', **kw)))
+  # a request is pending on a slow endless generator when the server is told
+  # to shut down (by this client: its pending call is cancelled; by a signal /
+  # someone else: the call must be answered with elements + a retriable error);
+  # the prefetch thread must end either way
+  for how in ('client', 'signal'):
+    for ps, k, at in ((1, 2, 0), (1, 2, 1), (2, 3, 1)):
+      rpc.append((pf, dict(mode='delay', n=99, ps=ps, k=k, at=at,
+                           script=['shutdown-pending', how])))
   quick = [('direct handlers, plain protocol, preemption bound 2', 2, plain),
            ('direct handlers, re-init/stop/shutdown scripts, preemption bound 1', 1, scripted),
            ('CourierClient over fake transport, delay bound 1', 1, rpc)]
@@ -63,7 +71,9 @@ def run(ctx):
       + '; '.join(f'{label} ({len(cfgs)} configurations)'
                   for label, _, cfgs in groups)
       + '. Generator length 0-3, prefetch size 1-2, requested batch 1-3, failure '
-        'at each position, re-init / stop / shutdown after 0-2 elements. '
+        'at each position, re-init / stop / shutdown after 0-2 elements; '
+        'shutdown (own request / signal) while a request is pending on a slow '
+        'endless generator. '
         'A case = one complete execution.')
   ctx.assumptions += [
       'sequential consistency at bytecode granularity (CPython GIL)',
